@@ -701,6 +701,25 @@ def verify(spec, registry=None, max_paths=400, only_clauses=None, only_cfg=None)
 _SOLVE = {}
 
 
+def _uf_apps(t):
+    """ids of the applications of uninterpreted functions (arity > 0) inside a term"""
+    out, seen, stack = set(), set(), [t]
+    while stack:
+        x = stack.pop()
+        i = x.get_id()
+        if i in seen:
+            continue
+        seen.add(i)
+        if z3.is_quantifier(x):
+            stack.append(x.body())
+            continue
+        if z3.is_app(x):
+            if x.num_args() > 0 and x.decl().kind() == z3.Z3_OP_UNINTERPRETED:
+                out.add(i)
+            stack.extend(x.children())
+    return out
+
+
 def _solve_vc(i):
     vc, plevel = _SOLVE["vcs"][i], _SOLVE["plevel"]
     budget, retries = _SOLVE.get("budget_ms"), _SOLVE.get("retries", True)
@@ -716,6 +735,16 @@ def _solve_vc(i):
         if r0["status"] == "discharged":
             r0["backend"] = str(r0.get("backend")) + "(without UF facts)"
             r = r0
+        if r is None:
+            # stage 1a: only the UF facts that talk about a function application occurring in the goal itself (e.g. the exp
+            # axioms for the very exponent of the result); one step of relevance, no closure
+            gapps = _uf_apps(vc["goal"])
+            direct = [a for a in vc["pc"] if a.get_id() in ids and (_uf_apps(a) & gapps)]
+            if direct and len(direct) < len(ids):
+                r0a = smt.prove(core + direct, vc["goal"], timeout_ms=8000, second_opinion=False, retries=False)
+                if r0a["status"] == "discharged":
+                    r0a["backend"] = str(r0a.get("backend")) + "(goal-direct UF facts)"
+                    r = r0a
         if r is None:
             # stage 1b: add only the *small* UF facts (bounds, exp/sqrt axiom instances over abstracted terms); the large
             # definitional equalities of abstracted polynomials stay out
